@@ -91,12 +91,12 @@ func check(c Case, o *stats.Obs) error {
 	}()
 	select {
 	case <-done:
-	case <-time.After(30 * time.Second):
+	case <-time.After(60 * time.Second):
 		o.Key = "no-return"
 		return fmt.Errorf("rtcmfilter HandleMessages did not return within 30 s (input %x)", input)
 	}
 	// Quiescence: wait (bounded) until the output has the expected length; C11 decides whether it must be there at return.
-	appsup.WaitFor(3*time.Second, func() bool { return w.Len() >= len(want) })
+	appsup.WaitFor(20*time.Second, func() bool { return w.Len() >= len(want) })
 	time.Sleep(2 * time.Millisecond)
 	if got := w.Snapshot(); !bytes.Equal(got, want) {
 		o.Key = "output"
@@ -160,5 +160,28 @@ func gen1(t *rapid.T) Case {
 var prop = stats.Prop(R, "filter", gen1, check)
 
 func TestFilter(t *testing.T) { rapid.Check(t, prop) }
+
+// Long stall: the output writer blocks for several seconds in one Write (pipe back-pressure, a disk
+// hiccup); every valid frame must still come out, in order.
+func genStall(t *rapid.T) Case {
+	c := Case{Display: rapid.Bool().Draw(t, "display"), Record: rapid.Bool().Draw(t, "record")}
+	n := rapid.IntRange(3, 6).Draw(t, "nFrames")
+	for i := 0; i < n; i++ {
+		c.Stream.Segs = append(c.Stream.Segs, gen.Segment{Kind: "valid", Data: gen.ValidFrame(t, 40)})
+		if rapid.Bool().Draw(t, "junkBetween") {
+			c.Stream.Segs = append(c.Stream.Segs, gen.Segment{Kind: "junk", Data: gen.Junk(t, false, 20)})
+		}
+	}
+	ms := 5500
+	if os.Getenv("VERIF_TIER") == "thorough" {
+		ms = 12000
+	}
+	c.Delays = []int{ms * 1000, 0, 0, 0, 0, 0, 0, 0, 0, 0, 0, 0, 0, 0, 0, 0}
+	return c
+}
+
+var propStall = stats.Prop(R, "long-stall", genStall, check)
+
+func TestLongStall(t *testing.T) { rapid.Check(t, propStall) }
 
 func TestReplay(t *testing.T) { R.Replay(t) }
